@@ -309,10 +309,10 @@ func (cs *ContractSet) parseContractText(file, pkgName string, text string) erro
 			}
 		case "callback":
 			f := strings.Fields(rest)
-			if len(f) < 3 || f[1] != "invariant" {
+			if len(f) < 3 || (f[1] != "invariant" && f[1] != "assume") {
 				return fmt.Errorf("%s:%d: bad callback clause", file, ln+1)
 			}
-			body := strings.TrimSpace(rest[strings.Index(rest, "invariant")+len("invariant"):])
+			body := strings.TrimSpace(rest[strings.Index(rest, f[1])+len(f[1]):])
 			addPending("cbinv", body, 0, f[0])
 		case "trusted":
 			cur.Trusted = true
